@@ -45,6 +45,28 @@ impl Rng {
     pub fn chance(&mut self, num: u64, den: u64) -> bool {
         self.below(den) < num
     }
+    /// nanoseconds below one second with digit structure: half of the time `k` leading decimal digits
+    /// followed by `9 - k` zeros (every printed-precision threshold of the fraction writers is a
+    /// "number of trailing zeros" test), sometimes one unit off such a value, otherwise uniform
+    pub fn nanos(&mut self) -> u32 {
+        if self.chance(1, 2) {
+            return self.below(1_000_000_000) as u32;
+        }
+        let k = self.below(10) as u32;
+        let scale = 10u64.pow(9 - k);
+        let v = self.below(10u64.pow(k)) * scale;
+        let v = match self.below(8) {
+            0 => v + 1,
+            1 => v.wrapping_sub(1),
+            2 => v + scale / 10,
+            _ => v,
+        };
+        if v < 1_000_000_000 {
+            v as u32
+        } else {
+            999_999_999
+        }
+    }
     /// an i64 with log-uniform magnitude and random sign
     pub fn log_i64(&mut self) -> i64 {
         let bits = self.below(64);
